@@ -261,6 +261,10 @@ func (c *Ctx) String(t *rapid.T, pos Pos) *model.Node {
 			lo = *n.MinLength
 		}
 		n.MaxLength = model.IntP(rapid.IntRange(lo, lo+6).Draw(t, "maxlen"))
+		if n.MinLength == nil && rapid.IntRange(0, 7).Draw(t, "maxlenzero") == 0 && !p.avoid("strings.max_length_zero") {
+			// known finding while the switch is on: a limit of 0 is taken for "no limit"
+			n.MaxLength = model.IntP(0)
+		}
 	}
 	if chance(t, p.PConstraint*0.7, "haspattern") {
 		// only patterns that some string inside the length window can match
@@ -470,6 +474,9 @@ func (c *Ctx) Array(t *rapid.T, depth, arrDepth int) *model.Node {
 			lo = *n.MinItems
 		}
 		n.MaxItems = model.IntP(rapid.IntRange(lo, lo+3).Draw(t, "maxitems"))
+		if n.MinItems == nil && rapid.IntRange(0, 7).Draw(t, "maxitemszero") == 0 && !p.avoid("arrays.max_items_zero") {
+			n.MaxItems = model.IntP(0)
+		}
 	}
 	if n.Items.Kind == model.KArray && !n.Items.Nullable && p.avoid("arrays.nested_levels_differ") {
 		// known finding: nested levels are checked against the outer bounds
@@ -744,6 +751,20 @@ func (c *Ctx) DefNode(t *rapid.T) *model.Node {
 	if p.MixedBranches {
 		cs = append(cs, kindChoice{"allOf", 1}, kindChoice{"anyOf", 2})
 	}
+	if n := c.defNode(t, cs); n != nil {
+		if (n.Kind == model.KString || n.Kind == model.KInteger || n.Kind == model.KNumber) && n.Format == "" &&
+			chance(t, p.PNullable, "nullabledef") && !p.avoid("defs.nullable_primitive_definition") {
+			// known finding while the switch is on: type X *T carries no validation at all
+			n.Nullable = true
+			n.NullFirst = rapid.Bool().Draw(t, "nullabledeffirst")
+		}
+		return n
+	}
+	return &model.Node{Kind: model.KBoolean}
+}
+
+func (c *Ctx) defNode(t *rapid.T, cs []kindChoice) *model.Node {
+	p := c.P
 	switch pick(t, "defkind", cs) {
 	case "allOf":
 		return c.Composite(t, model.KAllOf, 2)
